@@ -15,6 +15,7 @@
     Tables (inputs): the fast basis f (If x 2Mh; the stacked transform uses its
     Fortran-order reshape [stack_f]), p (Mh x Jf x Lf), w (Jf), the derivative recurrence
     weights a b (2Mh x Lf), sec2_lat, sin_lat (Jf). *)
+From Dino Require Import Model.Integrators.
 From Dino Require Import Base.Ops Base.Sums Base.Ord Model.Sigma Model.Implicit Model.PrimEq Model.SHT Model.SHTFast
      Model.Deriv Model.PrimEqFull.
 Local Open Scope F_scope.
@@ -167,4 +168,41 @@ Section PrimEqFullFast.
   Definition proj_state (s : @State F) : @State F :=
     mkState (fun k => proj (s_vort s k)) (fun k => proj (s_div s k)) (fun k => proj (s_temp s k))
             (proj (s_lnps s)) (map (fun t => fun k => proj (t k)) (s_tr s)).
+
+  (** *** time stepping (Model/Integrators.v) on whole states.
+      [PwOps]: State as a vector space, pointwise operations on the four prognostic fields (the
+      tracer list is dropped: tracers are passive in the dry equations, as in Thm/ScalingFull.v).
+      [norm_real] / [norm_fast]: the in-range part of a state in normal form (reference layout:
+      k < K, a < 2M-1, l < L, zero elsewhere; fast layout: E of the normal form of Pi), so that
+      "equal on every in-range coefficient" is equality. *)
+  Definition inr3 (K R L k a l : nat) : bool := (k <? K) && (a <? R) && (l <? L).
+  Definition inr2 (R L a l : nat) : bool := (a <? R) && (l <? L).
+  Definition cl3 (K R L : nat) (x : nat -> nat -> nat -> F) : nat -> nat -> nat -> F :=
+    fun k a l => if inr3 K R L k a l then x k a l else 0.
+  Definition cl2 (R L : nat) (x : nat -> nat -> F) : nat -> nat -> F :=
+    fun a l => if inr2 R L a l then x a l else 0.
+  Definition norm_real (K M L : nat) (s : @State F) : @State F :=
+    let R := (2 * M - 1)%nat in
+    mkState (cl3 K R L (s_vort s)) (cl3 K R L (s_div s)) (cl3 K R L (s_temp s)) (cl2 R L (s_lnps s)) [].
+  Definition norm_fast (K M L : nat) (y : @State F) : @State F :=
+    embed_state M L (norm_real K M L (proj_state y)).
+  Definition PwOps : VOps F (@State F) :=
+    mkVOps F (@State F)
+      (mkState zero3 zero3 zero3 (fun _ _ => 0) [])
+      (fun x y => mkState (fun k a l => s_vort x k a l + s_vort y k a l) (fun k a l => s_div x k a l + s_div y k a l)
+                          (fun k a l => s_temp x k a l + s_temp y k a l) (fun a l => s_lnps x a l + s_lnps y a l) [])
+      (fun t x => mkState (fun k a l => t * s_vort x k a l) (fun k a l => t * s_div x k a l)
+                          (fun k a l => t * s_temp x k a l) (fun a l => t * s_lnps x a l) []).
+
+  (** a spectral filter: every coefficient is multiplied by a factor that depends on the total
+      wavenumber index only (exponential_filter, horizontal_diffusion_filter of
+      dinosaur/filtering.py; runge_kutta_step_filter: a function of the state after the step) *)
+  Definition lfilter (sigma : nat -> F) (u w : @State F) : @State F :=
+    mkState (fun k a l => sigma l * s_vort w k a l) (fun k a l => sigma l * s_div w k a l)
+            (fun k a l => sigma l * s_temp w k a l) (fun a l => sigma l * s_lnps w a l) [].
+  (** time_integration.step_with_filters *)
+  Fixpoint apply_filters_s (fl : list (@State F -> @State F -> @State F)) (u un : @State F) : @State F :=
+    match fl with [] => un | f :: fl' => apply_filters_s fl' u (f u un) end.
+  Definition filtered_step (step : @State F -> @State F) (fl : list (@State F -> @State F -> @State F))
+             (u : @State F) : @State F := apply_filters_s fl u (step u).
 End PrimEqFullFast.
